@@ -6,6 +6,14 @@ HERE = os.path.dirname(os.path.dirname(os.path.abspath(__file__)))
 props = [json.loads(l) for l in open(os.path.join(HERE, "properties.jsonl"))]
 
 CLAIMS = {
+ "C05": dict(
+  technique="custom static checker: constant folding (with wrap detection) of the composed size computations of allocMemory/reallocMemory at the largest sizes their guards accept, at every residue mod 8, at the 2^32/2^63 boundaries and for calloc pairs around the overflow boundary; dominance-based null-test rule for every use of a may-be-NULL allocation result; sibling rule over the 18 operator new implementations; must-precede rule for the realloc failure path",
+  text="Decides that no size or count x size computation on the allocation paths can wrap for any request (monotone arithmetic folded at the guard boundary and residues), that the bookkeeping offset is pointer-aligned and leaves room for guard bytes and record in both layouts, that allocation results are null-tested before use, that throwing operator new variants throw on NULL and nothrow ones never do, that calloc zero-fills exactly its product and strdup/strndup size and terminate their copy. Three realloc-path defects are recorded as known findings. Alignment/disjointness of platform blocks and realloc content preservation are trusted.",
+  note="Trusted: the platform allocator's contract; LP64 widths; clang AST/CFG; monotonicity of the folded size expressions in the requested size."),
+ "C15": dict(
+  technique="custom static checker: path skeleton of the designation predicate with guard discipline per designation kind, effect analysis + per-iteration path enumeration of the designation walk (no early exit while the predicate has state), list-unlink idiom, exhaustive folding of the countdown over its partition, who-may-call rule for the uncounted allocation entry, null-test dominance for strdup/calloc",
+  text="Decides that a location designation is never matched against the global index (and vice versa), that every pending designation evaluates every allocation, that a fired designation is unlinked and freed exactly once and NULL is returned exactly then, that the countdown transition is exact on {<0,0,1,>1}, that all C allocation entry points tick the countdown, and that strdup/strndup/calloc propagate NULL. Which allocations a concrete workload performs is not decided.",
+  note="Trusted: clang AST/CFG; allocations reach the allocator once each (routing is C04.R8)."),
  "C17": dict(
   technique="custom static checker: dominance/guard analysis of the pointer-table stores against the array extent constant, who-writes analysis of the table index, structural descending-loop rule for the restore, ordering rules on the plugin chain walkers, sibling rule over the name-dispatching chain methods, list-unlink idiom check",
   text="Decides that no store into the pointer table can happen at index >= extent and that the full documented limit is usable, that the index is only advanced by the store and reset by constructor/post action, that the restore walks newest-to-oldest writing each saved value through its saved address and resets the index on every exit, that pre actions run head first and post actions tail first with disabled plugins skipping only themselves, that every chain method delegates along next_ and removal unlinks exactly the matched node. That post actions run for failed/throwing tests is C01.R1/R5.",
